@@ -32,7 +32,7 @@ for prop in props:
                                    "tools/baseline_check.py with the patch applied reproduces all 339 baseline passes"})
         check_prop = {"C10-m2": "C14", "C07-m3": "C18", "C10-m3": "C16", "C10-m4": "C02", "C02-m8": "C09", "C05-m7": "C04", "C10-m6": "C14", "C11-m1": "C02"}.get(sid, prop)      # a change may be caught by another property's check
         if run and prop in claimed:
-            r = subprocess.run(["git", "-C", "/repo", "apply", os.path.join(out, "patch.diff")], capture_output=True, text=True)
+            r = subprocess.run(["git", "-C", os.environ.get("VERIF_REPO", "/repo"), "apply", os.path.join(out, "patch.diff")], capture_output=True, text=True)
             if r.returncode != 0:
                 meta["detection"] = {"error": "patch does not apply to the current tree: " + r.stderr[:200]}
             else:
@@ -42,7 +42,7 @@ for prop in props:
                     meta["detection"] = {"check": f"./check {check_prop} --tier quick", "exit": c.returncode,
                                          "detected": c.returncode == 1, "lines": lines[:6]}
                 finally:
-                    subprocess.run(["git", "-C", "/repo", "checkout", "--", "."])
+                    subprocess.run(["git", "-C", os.environ.get("VERIF_REPO", "/repo"), "checkout", "--", "."])
                     # a run against a seeded change must not leave its evidence / replay files behind: restore the committed ones
                     subprocess.run(["git", "-C", VERIF, "checkout", "--", "evidence"])
             print(sid, meta.get("detection", {}).get("exit"), meta.get("detection", {}).get("detected"))
